@@ -9,7 +9,7 @@ SIDE = 'TLA+ side specification checked/enumerated by TLC + conformance of the r
 CLAIMED = {
  'C20': dict(cat='exploration', ref='6/C20', text='Fidelity.tla lists classes of client data (ids with slashes, spaces, case, non-ASCII, markup, separators, percent signs, template syntax, non-canonical path encodings; binary and large payloads; header/tag maps with empty and non-ASCII keys; idempotency keys; timeouts over the 64-bit range) and the scenarios: write through one protocol, read back through both, kill -9, restart, read again, complete, read again; ids differing only in case or surrounding space; ids derived by the server (scheduled promise ids, task ids and links in dispatched messages). TLC enumerates the scenarios, procx plays them on the real binary, TLC compares what came back (hex of the bytes) with what was supplied.', tech='TLA+ scenario table (Fidelity.tla) enumerated by TLC, played on the real server binary over HTTP and gRPC (procx), read-back values judged by TLC (FidelityTrace.tla)', engine='tlc+procx'),
  'C12': dict(cat='model_checking', ref='6/C12', text='Queues.tla (client goroutines, api queue/buffer/done flag under its lock, Loop, bounded scheduler in-queue, subsystem queue, worker, blocking completion queue) checked exhaustively by TLC for safety and liveness (exactly one reply, accepted requests answered before the loop returns, loop returns after shutdown); TLC-generated schedules of the controllable steps are replayed on the PRODUCTION api/aio/System.Loop with real goroutines (hook after the done-check), plus seeded free-running rounds with sizes down to 1 and bursts; TLC judges what every client observed.', tech=SIDE, engine='tlc+queuex'),
- 'C15': dict(cat='model_checking', ref='6/C15', text='The complete finite table (17 operations x 29 statuses x delivery path x resource shape = 1632 vectors, and 44 paired requests) is enumerated by TLC from Render.tla and played against the real gin and grpc servers with real clients over a stub kernel, in a child process so that handler panics are observed; TLC judges HTTP code/body, gRPC code, outcome flags and request translation.', tech=SIDE, engine='tlc+frontx'),
+ 'C15': dict(cat='model_checking', ref='6/C15', text='The complete finite table (17 operations x 29 statuses x delivery path x resource shape = 1632 vectors, and 44 paired requests) is enumerated by TLC from Render.tla and played against the real gin and grpc servers with real clients over a stub kernel, in a child process so that handler panics are observed; TLC judges HTTP code/body, gRPC code, outcome flags, the state of every promise in a reply (answers with a promise of each of the five states) and request translation.', tech=SIDE, engine='tlc+frontx'),
  'C16': dict(cat='model_checking', ref='6/C16', text='Store.tla is an executable reference of the 27 commands; TLC generates batches (1..3 transactions x 1..3 commands, guarded writes aimed at current rows half of the time, naturally failing bulk inserts) which are executed by the real SQLite worker; every reported result (evaluated on the state just before its command) and the five tables read back through a second connection are judged by TLC.', tech=SIDE, engine='tlc+storex'),
  'C17': dict(cat='model_checking', ref='6/C17', text='The same TLC-generated workloads are executed by the real Postgres worker code (statement text, placeholders, argument and scan order, row-count plumbing, transaction handling) over a dialect-translating driver on the SQLite engine, and by the SQLite worker; both are judged by TLC against Store.tla, hence against each other.', tech=SIDE, engine='tlc+storex+pgemu'),
  'C18': dict(cat='model_checking', ref='6/C18', text='Poll.tla (registry, buffers, connection limit, usurpation, id preference, notify rule, double-close = crash) checked exhaustively; TLC-generated event sequences are replayed on the real connections registry and PollWorker.Process, directly and through the real PollWorker.Start loop (control events queued while the worker is busy exercise the prioritised select); registry, buffer lengths, Done results and panics judged by TLC.', tech=SIDE, engine='tlc+pollx'),
